@@ -115,6 +115,14 @@ cfg_not_miri! {
                     }
                 }
 
+                /// The timestamp of the next event, without removing it.
+                pub(crate) fn peek_time(&self) -> Option<SimTime> {
+                    self.zero_queue
+                        .front()
+                        .or_else(|| self.heap.peek())
+                        .map(|node| node.time)
+                }
+
                 //
                 // clippy::let_and_return occures on not(feature = "metrics")
                 // but would produce invalid code with feature "metrics"
@@ -202,6 +210,11 @@ cfg_not_miri! {
                     Self {
                         inner: CQueue::new(options.cqueue_num_buckets, options.cqueue_bucket_timespan),
                     }
+                }
+
+                /// The timestamp of the next event, without removing it.
+                pub(crate) fn peek_time(&self) -> Option<SimTime> {
+                    self.inner.peek_time().map(SimTime::from_duration)
                 }
 
                 #[allow(clippy::needless_pass_by_value)]
@@ -342,6 +355,14 @@ cfg_miri! {
 
                     last_event_simtime: options.start_time,
                 }
+            }
+
+            /// The timestamp of the next event, without removing it.
+            pub(crate) fn peek_time(&self) -> Option<SimTime> {
+                self.zero_queue
+                    .front()
+                    .or_else(|| self.heap.peek())
+                    .map(|node| node.time)
             }
 
             //
